@@ -4,6 +4,7 @@ import Driver.C05
 import Driver.C11
 import Driver.SqlTx
 import Driver.SqlMv
+import Driver.C13Cache
 import Driver.C14
 import Driver.C07
 import Driver.C02
@@ -26,6 +27,7 @@ structure State where
   c06 : C06.St := {}
   c05 : C05.St := {}
   c13 : SqlTx.St := {}
+  c13c : C13Cache.St := {}
   c12 : SqlTx.St := {}
   c12mv : SqlMv.St := {}
   c11 : C11.St := {}
@@ -64,6 +66,7 @@ def step (st : State) (line : String) : State × String :=
   | "c11" :: rest => let (s, o) := C11.step st.c11 rest; ({ st with c11 := s }, o)
   | "c12" :: "mv" :: rest => let (s, o) := SqlMv.step st.c12mv rest; ({ st with c12mv := s }, o)
   | "c12" :: rest => let (s, o) := SqlTx.step' true st.c12 rest; ({ st with c12 := s }, o)
+  | "c13c" :: rest => let (s, o) := C13Cache.step st.c13c rest; ({ st with c13c := s }, o)
   | "c13" :: rest => let (s, o) := SqlTx.step' false st.c13 rest; ({ st with c13 := s }, o)
   | "c05" :: rest => let (s, o) := C05.step st.c05 rest; ({ st with c05 := s }, o)
   | "c06" :: rest => let (s, o) := C06.step st.c06 rest; ({ st with c06 := s }, o)
